@@ -169,7 +169,7 @@ def run_shard(acc, prop, tier, seed, shard, nshards, **kw):
     w.pop("inject")
     _w.shard(acc, PROP, tier, seed, shard, nshards, factory, w, (16, (140, 220)), (300, (140, 300)), CORR, pre_hook=pre_hook)
     from .. import core as _core
-    if _core.ONLY_WORLD is None and (tier == "thorough" or shard % 4 == 0):
+    if _core.ONLY_WORLD in (None, "churn") and (tier == "thorough" or shard % 4 == 0):
         churn_world(acc, (seed, PROP, tier, shard, "churn"), 530)
 
 
